@@ -345,63 +345,67 @@ Definition table_exceptions : list N :=
 
 (* ------------------------------------------------------------------ error paths *)
 
-(* Where a script error raised by the instruction at pc (in state s, of encoded length len)
-   leaves the VM: Execute catches it, prints a warning and calls Process again, which goes on
-   from m_CodePos with the stack as the failed instruction left it.  One entry per way the
-   instruction can fail, written after the code:
-   - most instructions fail inside a ScriptVariable operation or a command, after every Pop /
-     Push / operand read of the normal path was done: the normal successor;
-   - loadTop (OP_LOAD_<group>_VAR): the Pop is the last statement, a failing setter (read-only
-     field) skips it;
-   - OP_LOAD_FIELD_VAR, OP_LOAD_SELF/OWNER_VAR: hand-written Pop / skipField before the throw;
-   - OP_LOAD_STORE_SELF_VAR: `self is NULL` is thrown with the operands unread (OWNER_VAR skips them);
-   - OP_STORE_OWNER: pushes before `self is NULL` is thrown, like the normal path;
-   - OP_STORE_FIELD: catch block = skipField + Clear, also when storeTop had already read the
-     operands (failing getter);
-   - OP_STORE_FIELD_REF: catch block does not move the code position; the NULL case skips before
-     the throw, a failing getter comes after the read, a value that is no listener fails before. *)
+(* Where a script error raised by the instruction at pc (in state s) leaves the VM: Execute
+   catches it, prints a warning and calls Process again, which goes on from m_CodePos with the
+   stack as the failed instruction left it.
+   - Most instructions fail inside a ScriptVariable operation or a command, after every Pop /
+     Push / operand read of the normal path was done: the error state is the normal successor.
+   - The field opcodes have hand-written error handling; [err_table] lists, per opcode, the
+     (pops, pushes) of each way it can fail - the code position is always after the two operands
+     (skipField where they were not read yet):
+       loadTop (OP_LOAD_<group>_VAR): catch { Pop } around the setter, like the normal path;
+       OP_LOAD_SELF/OWNER_VAR: NULL self / owner: Pop, skipField, throw; else loadTop;
+       OP_LOAD_FIELD_VAR: Pop a; then catch { if (!eventCalled) { Pop; skipField } }: 2 pops when the
+         value is no listener or NULL, and 2 pops when loadTop's setter throws (loadTop's catch pops);
+       OP_LOAD_STORE_SELF/OWNER_VAR: skipField before `self is NULL`; loadStoreTop keeps the top;
+       OP_STORE_SELF/OWNER_VAR: Push, skipField, throw; storeTop pushes before the getter;
+       OP_STORE_FIELD, OP_STORE_FIELD_REF: catch { if (!operandsRead) skipField; ... } keeps the top. *)
 Definition at_ (pc : N) (s : astate) (pops pushes : N) : list config :=
   match adj s pops pushes with Some s' => [(pc, s')] | None => [] end.
 
 Definition fieldlen : N := 1 + sz_op_name_t + sz_op_evName_t.
 
-Definition is_load_group (op : N) : bool :=
-  existsb (N.eqb op) [OP_LOAD_GAME_VAR; OP_LOAD_LEVEL_VAR; OP_LOAD_LOCAL_VAR; OP_LOAD_PARM_VAR; OP_LOAD_GROUP_VAR].
-Definition is_load_self (op : N) : bool := existsb (N.eqb op) [OP_LOAD_SELF_VAR; OP_LOAD_OWNER_VAR].
+Definition err_table : list (N * list (N * N)) := [
+  (OP_LOAD_GAME_VAR, [(1, 0)]); (OP_LOAD_LEVEL_VAR, [(1, 0)]); (OP_LOAD_LOCAL_VAR, [(1, 0)]);
+  (OP_LOAD_PARM_VAR, [(1, 0)]); (OP_LOAD_GROUP_VAR, [(1, 0)]);
+  (OP_LOAD_SELF_VAR, [(1, 0)]); (OP_LOAD_OWNER_VAR, [(1, 0)]);
+  (OP_LOAD_FIELD_VAR, [(2, 0); (2, 0)]);
+  (OP_LOAD_STORE_GAME_VAR, [(1, 1)]); (OP_LOAD_STORE_LEVEL_VAR, [(1, 1)]); (OP_LOAD_STORE_LOCAL_VAR, [(1, 1)]);
+  (OP_LOAD_STORE_PARM_VAR, [(1, 1)]); (OP_LOAD_STORE_GROUP_VAR, [(1, 1)]);
+  (OP_LOAD_STORE_SELF_VAR, [(1, 1)]); (OP_LOAD_STORE_OWNER_VAR, [(1, 1)]);
+  (OP_STORE_GAME_VAR, [(0, 1)]); (OP_STORE_LEVEL_VAR, [(0, 1)]); (OP_STORE_LOCAL_VAR, [(0, 1)]);
+  (OP_STORE_PARM_VAR, [(0, 1)]); (OP_STORE_GROUP_VAR, [(0, 1)]);
+  (OP_STORE_SELF_VAR, [(0, 1)]); (OP_STORE_OWNER_VAR, [(0, 1)]);
+  (OP_STORE_FIELD, [(1, 1)]); (OP_STORE_FIELD_REF, [(1, 1)])
+].
 
 Definition exec_err (p : program) (pc : N) (s : astate) : list config :=
   match byte p pc with
   | None => []
   | Some op =>
-    if is_load_group op then at_ (pc + fieldlen) s 0 0                      (* setter throws: no Pop *)
-    else if is_load_self op then
-      at_ (pc + fieldlen) s 1 0                                             (* NULL self/owner: Pop, skipField *)
-      ++ at_ (pc + fieldlen) s 0 0                                          (* setter throws: no Pop *)
-    else if op =? OP_LOAD_FIELD_VAR then at_ (pc + fieldlen) s 2 0          (* all three paths *)
-    else if op =? OP_LOAD_STORE_SELF_VAR then
-      at_ (pc + 1) s 1 1                                                    (* NULL self: operands unread *)
-      ++ at_ (pc + fieldlen) s 1 1                                          (* setter throws *)
-    else if op =? OP_STORE_FIELD then
-      at_ (pc + fieldlen) s 1 1                                             (* no listener / NULL: skipField once *)
-      ++ at_ (pc + fieldlen + sz_op_name_t + sz_op_evName_t) s 1 1          (* getter throws: read + skipField *)
-    else if op =? OP_STORE_FIELD_REF then
-      at_ (pc + 1) s 1 1                                                    (* not a listener: nothing skipped *)
-      ++ at_ (pc + fieldlen) s 1 1                                          (* NULL / getter throws *)
-    else
-      match shape_of op, exec p pc s with
-      | ShCmd _ _ _, Some (c :: _) => [c]                                   (* after the pops and the operand reads *)
-      | _, Some [c] => [c]                                                  (* after the normal-path effects *)
-      | _, _ => []                                                          (* jumps, switch, OP_DONE: no failing operation *)
+      match assoc err_table op with
+      | Some outcomes => flat_map (fun ab => at_ (pc + fieldlen) s (fst ab) (snd ab)) outcomes
+      | None =>
+          match shape_of op, exec p pc s with
+          | ShCmd _ _ _, Some (c :: _) => [c]        (* after the pops and the operand reads *)
+          | _, Some [c] => [c]                        (* after the normal-path effects *)
+          | _, _ => []                                (* jumps, switch, OP_DONE: no failing operation *)
+          end
       end
   end.
+
+(* an outcome of the table agrees with the normal path when the opcode's shape is the field shape
+   with the same pops and pushes *)
+Definition shape_is_field (sh : shape) (a b : N) : bool :=
+  match sh with ShField x y => (x =? a) && (y =? b) | _ => false end.
+Definition err_row_ok (row : N * list (N * N)) : bool :=
+  forallb (fun ab => shape_is_field (shape_of (fst row)) (fst ab) (snd ab)) (snd row).
+
+(* the opcodes with an error path that breaks the discipline: computed from the table *)
+Definition err_defective : list N := map fst (filter (fun row => negb (err_row_ok row)) err_table).
 
 Definition err_ok (p : program) (pc : N) (s : astate) : bool :=
   match exec p pc s with
   | Some succs => forallb (fun c => existsb (fun c' => (fst c =? fst c') && astate_eqb (snd c) (snd c')) succs) (exec_err p pc s)
   | None => true
   end.
-
-(* the (opcode) instructions whose error paths break the discipline *)
-Definition err_defective : list N :=
-  [OP_LOAD_GAME_VAR; OP_LOAD_LEVEL_VAR; OP_LOAD_LOCAL_VAR; OP_LOAD_PARM_VAR; OP_LOAD_GROUP_VAR;
-   OP_LOAD_SELF_VAR; OP_LOAD_OWNER_VAR; OP_LOAD_STORE_SELF_VAR; OP_STORE_FIELD; OP_STORE_FIELD_REF].
